@@ -134,23 +134,59 @@ Proof. exact is_valid_example. Qed.
 (* ------------------------------------------------------------------------------------------ *)
 (* ---- occurrences of an element: HRef.get_all_hrefs_of_item / get_all_hrefs_of_instances ---- *)
 
-(* the kernel: for a non-empty collection of instances whose first member references a definition
-   of netlist n, the upward marking + downward search terminates with the fuel it is given and
-   returns, without duplicates, exactly the instance paths below the top instance of n that end in
-   one of the instances *)
-Theorem C11_hrefs_of_instances : forall s insts x0 rest n t,
+(* the kernel: for ANY collection of instances, the upward marking + downward search from every top
+   instance the marking has reached terminates with the fuel it is given and returns, without
+   duplicates, exactly the valid instance paths (below the top instance of whichever netlist) that
+   end in one of the instances. Nothing is assumed about what the instances reference: the top
+   instances are found from where the instances sit. *)
+Theorem C11_hrefs_of_instances : forall s insts,
   Inv1a s -> Inv2a s -> WFk s -> acyclic s ->
-  insts = x0 :: rest -> root_netlist s x0 = Some n -> top s n = Some t ->
   exists l, hrefs_of_instances s insts = Some l /\ NoDup l /\
-            (forall p, In p l <-> (is_rpath s t p /\ exists x, hd_error p = Some x /\ In x insts)).
+            (forall p, In p l <-> ((exists t, is_path s t p) /\ exists x, hd_error p = Some x /\ In x insts)).
 Proof. exact hrefs_of_instances_spec. Qed.
 Print Assumptions C11_hrefs_of_instances.
 
-(* the statement as first written: asking for the occurrences of an element returns exactly the
-   references that end in it. It is FALSE of the model and of the code (C11_occurrences_full_refuted):
-   the netlist is found through  reference.library.netlist  of the first instance of the owning
-   definition, so a port / cable / pin / wire of a definition that is not in a library of the
-   netlist has valid occurrences (is_valid; get_hports enumerates them) that are not returned. *)
+(* the same kernel with a netlist handed in (second argument of get_all_hrefs_of_instances): exactly
+   the instance paths below the top instance of THAT netlist that end in one of the instances *)
+Theorem C11_hrefs_of_instances_in_netlist : forall s insts n t,
+  Inv1a s -> Inv2a s -> WFk s -> acyclic s -> top s n = Some t ->
+  exists l, hrefs_of_instances_in s insts n = Some l /\ NoDup l /\
+            (forall p, In p l <-> (is_rpath s t p /\ exists x, hd_error p = Some x /\ In x insts)).
+Proof. exact hrefs_of_instances_in_spec. Qed.
+Print Assumptions C11_hrefs_of_instances_in_netlist.
+
+(* asking for the occurrences of an element returns exactly the references that end in it, each
+   once - in every well-formed heap, for every instance (with or without a reference), port, pin,
+   cable and wire (whether or not the owning definition is in a library), over all netlists *)
+Definition C11_occurrences : Prop := forall s e l,
+  WF s ->
+  (kind_of s e = Some KInstance \/ kind_of s e = Some KPort \/ kind_of s e = Some KPin \/
+   kind_of s e = Some KCable \/ kind_of s e = Some KWire) ->
+  hrefs_of_item s (QId e) = Some l ->
+  NoDup l /\ (forall h, In h l <-> occ s e h).
+
+Theorem C11_occurrences_holds : C11_occurrences.
+Proof.
+  intros s e l W K E. destruct (occ_item s W e K) as (l' & E' & N & S).
+  rewrite E in E'. inversion E'; subst l'. split; assumption.
+Qed.
+Print Assumptions C11_occurrences_holds.
+
+(* ... and the query answers (never runs out of fuel, never dereferences None) *)
+Theorem C11_occurrences_total : forall s e,
+  WF s ->
+  (kind_of s e = Some KInstance \/ kind_of s e = Some KPort \/ kind_of s e = Some KPin \/
+   kind_of s e = Some KCable \/ kind_of s e = Some KWire) ->
+  exists l, hrefs_of_item s (QId e) = Some l /\ NoDup l /\ (forall h, In h l <-> occ s e h).
+Proof. intros s e W. exact (occ_item s W e). Qed.
+Print Assumptions C11_occurrences_total.
+
+(* the statement as first written (one netlist n with top instance t below which every occurrence
+   hangs; for an instance: its reference is a definition of n). It was FALSE of the code before the
+   repair of get_all_hrefs_of_instances, which looked the netlist up through
+   reference.library.netlist of the first instance (findings C11-definition-outside-library and
+   C11-instance-without-reference); it is now an instance of C11_occurrences_holds - none of its
+   hypotheses about n and t is needed. *)
 Definition C11_occurrences_full : Prop := forall s n t e l,
   WF s -> top s n = Some t -> is_root s t ->
   (kind_of s e = Some KInstance \/ kind_of s e = Some KPort \/ kind_of s e = Some KPin \/
@@ -160,80 +196,58 @@ Definition C11_occurrences_full : Prop := forall s n t e l,
   hrefs_of_item s (QId e) = Some l ->
   NoDup l /\ (forall h, In h l <-> occ s e h).
 
-Theorem C11_occurrences_full_refuted : ~ C11_occurrences_full.
-Proof. exact occurrences_full_refuted. Qed.
-Print Assumptions C11_occurrences_full_refuted.
+Theorem C11_occurrences_full_holds : C11_occurrences_full.
+Proof. intros s n t e l W _ _ K _ _ E. exact (C11_occurrences_holds s e l W K E). Qed.
+Print Assumptions C11_occurrences_full_holds.
 
-(* the corrected statement: one more hypothesis - the definition that owns the port / cable / pin /
-   wire, if it is instantiated at all, sits in a library of the netlist (owner_def, def_netlist:
-   Proofs/HierOccItem.v). For an instance the corresponding hypothesis (its reference is a
-   definition of the netlist; in particular it HAS a reference - open finding
-   C11-instance-without-reference) was already there. *)
-Definition C11_occurrences_corrected : Prop := forall s n t e l,
-  WF s -> top s n = Some t -> is_root s t ->
-  (kind_of s e = Some KInstance \/ kind_of s e = Some KPort \/ kind_of s e = Some KPin \/
-   kind_of s e = Some KCable \/ kind_of s e = Some KWire) ->
-  (kind_of s e = Some KInstance -> root_netlist s e = Some n) ->
-  (forall d, owner_def s e = Some d -> drefs s d <> [] -> def_netlist s d = Some n) ->
-  (forall h, occ s e h -> exists p, is_path s t p /\ exists q, h = q ++ p) ->
-  hrefs_of_item s (QId e) = Some l ->
-  NoDup l /\ (forall h, In h l <-> occ s e h).
+(* the former witnesses, now answered: a port of a definition that was never added to a library
+   (instantiated below the top), and an instance without a reference *)
+Example C11_occurrences_outside_library :
+  WF w_state /\ owner_def w_state 4 = Some 3 /\ def_netlist w_state 3 = None /\ drefs w_state 3 = [5] /\
+  occ w_state 4 [4; 5; 6] /\
+  hrefs_of_item w_state (QId 4) = Some [[4; 5; 6]] /\
+  hrefs_of_item w_state (QId 5) = Some [[5; 6]].
+Proof. exact occurrences_outside_library. Qed.
 
-Theorem C11_occurrences_holds : C11_occurrences_corrected.
-Proof.
-  intros s n t e l W Ht Hr K Hi Hd U E.
-  destruct (occ_item s n t W Ht Hr e K Hi Hd U) as (l' & E' & N & S).
-  rewrite E in E'. inversion E'; subst l'. split; assumption.
-Qed.
-Print Assumptions C11_occurrences_holds.
+Example C11_occurrences_without_reference :
+  never_stuck nr_ops init /\ kind_of nr_state 3 = Some KInstance /\ iref nr_state 3 = None /\
+  is_valid nr_state [3; 4] = true /\
+  get_hinstances_netlist nr_state 0 true = Some [[3; 4]] /\
+  hrefs_of_item nr_state (QId 3) = Some [[3; 4]].
+Proof. exact occurrences_without_reference. Qed.
 
-(* ... and the query answers (never runs out of fuel, never dereferences None) under the same
-   hypotheses *)
-Theorem C11_occurrences_total : forall s n t e,
-  WF s -> top s n = Some t -> is_root s t ->
-  (kind_of s e = Some KInstance \/ kind_of s e = Some KPort \/ kind_of s e = Some KPin \/
-   kind_of s e = Some KCable \/ kind_of s e = Some KWire) ->
-  (kind_of s e = Some KInstance -> root_netlist s e = Some n) ->
-  (forall d, owner_def s e = Some d -> drefs s d <> [] -> def_netlist s d = Some n) ->
-  (forall h, occ s e h -> exists p, is_path s t p /\ exists q, h = q ++ p) ->
-  exists l, hrefs_of_item s (QId e) = Some l /\ NoDup l /\ (forall h, In h l <-> occ s e h).
-Proof. intros s n t e W Ht Hr. exact (occ_item s n t W Ht Hr e). Qed.
-Print Assumptions C11_occurrences_total.
-
-(* the last hypothesis ("every occurrence hangs below t") holds in particular when t is the only
-   top instance of the heap *)
+(* "every occurrence hangs below t" (a hypothesis of the uniqueness theorems below) holds in
+   particular when t is the only top instance of the heap *)
 Theorem C11_single_top_under : forall s t e, (forall t', is_root s t' -> t' = t) ->
   forall h, occ s e h -> exists p, is_path s t p /\ exists q, h = q ++ p.
 Proof. exact under_single_root. Qed.
 Print Assumptions C11_single_top_under.
 
-(* a definition: the instance paths that end in one of its instances *)
-Theorem C11_occurrences_of_definition : forall s n t d,
-  WF s -> top s n = Some t ->
-  kind_of s d = Some KDefinition -> (drefs s d <> [] -> def_netlist s d = Some n) ->
+(* a definition: the valid instance paths that end in one of its instances *)
+Theorem C11_occurrences_of_definition : forall s d,
+  WF s -> kind_of s d = Some KDefinition ->
   exists l, hrefs_of_item s (QId d) = Some l /\ NoDup l /\
-            (forall p, In p l <-> exists x p', p = x :: p' /\ is_rpath s t p /\ iref s x = Some d).
-Proof. intros s n t d W Ht. exact (occ_definition s n t W Ht d). Qed.
+            (forall p, In p l <-> exists x p' t, p = x :: p' /\ is_path s t p /\ iref s x = Some d).
+Proof. intros s d W. exact (occ_definition s W d). Qed.
 Print Assumptions C11_occurrences_of_definition.
 
 (* an outer pin (instance x, inner pin i of port q): one pin reference per occurrence of x; they are
    valid references when q is a port of the definition x references *)
-Theorem C11_occurrences_of_outer_pin : forall s n t x i q,
-  WF s -> top s n = Some t -> root_netlist s x = Some n -> par s RPins i = Some q ->
+Theorem C11_occurrences_of_outer_pin : forall s x i q,
+  WF s -> par s RPins i = Some q ->
   exists l, hrefs_of_item s (QOuter x i) = Some l /\ NoDup l /\
-            (forall h, In h l <-> exists p', h = i :: q :: x :: p' /\ is_rpath s t (x :: p')).
-Proof. intros s n t x i q W Ht. exact (occ_outer_pin s n t W Ht x i q). Qed.
+            (forall h, In h l <-> exists p' t, h = i :: q :: x :: p' /\ is_path s t (x :: p')).
+Proof. intros s x i q W. exact (occ_outer_pin s W x i q). Qed.
 Print Assumptions C11_occurrences_of_outer_pin.
 
 Theorem C11_outer_pin_references_valid : forall s t x i q p',
-  WF s -> is_root s t -> par s RPins i = Some q -> In q (ports_of s x) -> is_rpath s t (x :: p') ->
+  WF s -> par s RPins i = Some q -> In q (ports_of s x) -> is_path s t (x :: p') ->
   is_href s (i :: q :: x :: p').
-Proof. intros s t x i q p' W Hr. exact (outer_pin_refs_valid s t W Hr x i q p'). Qed.
+Proof. intros s t x i q p' W. exact (outer_pin_refs_valid s W t x i q p'). Qed.
 Print Assumptions C11_outer_pin_references_valid.
 
 Example C11_occurrences_hypotheses_satisfiable :
-  exists s n t e l, WF s /\ top s n = Some t /\ is_root s t /\ kind_of s e = Some KPin /\
-    (forall d, owner_def s e = Some d -> drefs s d <> [] -> def_netlist s d = Some n) /\
+  exists s e l, WF s /\ kind_of s e = Some KPin /\
     hrefs_of_item s (QId e) = Some l /\ l = [[5; 4; 6; 7]].
 Proof. exact occ_item_example. Qed.
 
@@ -356,7 +370,8 @@ Proof. exact name_example. Qed.
 (* ------------------------------------------------------------------------------------------ *)
 (* ---- the property as a whole ---- *)
 
-(* as first written: refuted through its occurrence and uniqueness clauses *)
+(* as first written: its occurrence clause now holds (C11_occurrences_full_holds); it is still
+   refuted through its uniqueness clause (cross-netlist instantiation, see C11_unique_full) *)
 Definition C11_full : Prop :=
   (forall s n t, Inv1a s -> WFk s -> acyclic s -> top s n = Some t ->
      exists l, get_hinstances_netlist s n true = Some l /\ NoDup l /\
@@ -365,16 +380,17 @@ Definition C11_full : Prop :=
   /\ C11_occurrences_full /\ C11_unique_full /\ C11_name_full.
 
 Theorem C11_full_refuted : ~ C11_full.
-Proof. intros (_ & _ & H & _). exact (C11_occurrences_full_refuted H). Qed.
+Proof. intros (_ & _ & _ & H & _). exact (C11_unique_full_refuted H). Qed.
 Print Assumptions C11_full_refuted.
 
-(* with the two corrected clauses: proved *)
+(* with the occurrence clause at full strength (no hypothesis beyond WF) and the corrected
+   uniqueness clause: proved *)
 Definition C11_corrected : Prop :=
   (forall s n t, Inv1a s -> WFk s -> acyclic s -> top s n = Some t ->
      exists l, get_hinstances_netlist s n true = Some l /\ NoDup l /\
                (forall p, In p l <-> (is_rpath s t p /\ p <> [t])))
   /\ (forall s h, Inv1a s -> Inv2a s -> WFk s -> (is_valid s h = true <-> is_href s h))
-  /\ C11_occurrences_corrected /\ C11_unique_corrected /\ C11_name_full.
+  /\ C11_occurrences /\ C11_unique_corrected /\ C11_name_full.
 
 Theorem C11_corrected_holds : C11_corrected.
 Proof.
